@@ -32,6 +32,8 @@ type caseJSON struct {
 	W0     string     `json:"w0"`
 	Steps  []stepJSON `json:"steps"`
 	KfKey  string     `json:"kf_key,omitempty"`
+	// spec.terminationGracePeriodSeconds of the initial pods (pod id -> seconds), not part of the Gallina pod
+	PodGrace map[string]int64 `json:"pod_grace,omitempty"`
 }
 
 type runner struct {
@@ -89,11 +91,51 @@ func genVolumeWorld(r *kit.Rand) *world {
 	return w
 }
 
+// genDeadlineWorld: the node's termination deadline has passed and the pods still bound to it are in Drain's
+// force-delete class (not terminating but with a grace period that crosses the deadline — held back until then by a
+// PDB or do-not-disrupt —, or force-deleted after the deadline and terminating for less than a minute, kept by a
+// finalizer / a slow kubelet). Everything else is ready for the finalizer to come off: cordoned, Drained latched,
+// instance going or gone. The pods are neither gone nor stuck terminating, so the finalizer must stay.
+func genDeadlineWorld(r *kit.Rand) *world {
+	w := &world{Now: 1000, Inst: pick(r, "IGone", "IGone", "IShutting", "IRunning")}
+	w.Nodes = []*wNode{{ID: 0, Managed: true, Fin: true, Del: true, Taint: true, Lbl: true, Ready: !r.Chance(10, 100)}}
+	deadline := w.Now - int64(pick(r, 1, 2, 10, 45, 59))
+	c := &wClaim{Managed: true, Fin: true, Pid: true, Reg: true, Del: i64(deadline - 30), Tgp: i64(30), Annot: "at", AnnotAt: deadline,
+		Drained: pick(r, "T", "T", "U", ""), Since: w.Now - int64(pick(r, 4, 5, 6, 30)), Vol: pick(r, "", "U", "T", "F"), Term: r.Chance(60, 100)}
+	w.Claim = c
+	for k := r.Range(1, 2); k > 0; k-- {
+		p := &wPod{ID: int64(len(w.Pods)), Node: 0}
+		switch r.Intn(10) {
+		case 0, 1, 2, 3: // deleted at / after the deadline, still terminating
+			p.Del = i64(deadline + 1 + int64(r.Intn(int(w.Now-deadline))))
+			p.Grace = i64(int64(pick(r, 0, 30)))
+		case 4, 5, 6: // not deleted yet, its grace period crosses the deadline
+			p.Grace = i64(int64(pick(r, 0, 1, 30, 600)))
+		case 7: // graceful candidate: no grace period recorded
+		case 8: // deleted before the deadline (graceful class while terminating)
+			p.Del = i64(deadline - int64(pick(r, 0, 5)))
+		default:
+			p.Tol = true
+		}
+		if r.Chance(30, 100) {
+			p.PVs = []int64{1}
+		}
+		w.Pods = append(w.Pods, p)
+	}
+	if r.Chance(40, 100) {
+		w.VAs = []*wVA{{ID: 0, Node: 0, PV: i64(1)}}
+	}
+	return w
+}
+
 var volumeSites = []string{"SListVAs", "SListPodsVA", "SGetPVC", "SGetPVC", "SPatchStatus", "SProvDelete", "SRmNodeFin"}
 
 func genWorld(r *kit.Rand, stream string) *world {
 	if stream == "volumes" {
 		return genVolumeWorld(r)
+	}
+	if stream == "deadline" {
+		return genDeadlineWorld(r)
 	}
 	w := &world{Now: 1000, Inst: "IRunning"}
 	nn := 1
@@ -166,6 +208,9 @@ func genWorld(r *kit.Rand, stream string) *world {
 			p := &wPod{ID: int64(len(w.Pods)), Node: int64(r.Intn(nn)), Terminal: r.Chance(12, 100), Tol: r.Chance(20, 100), Static: r.Chance(10, 100)}
 			if r.Chance(40, 100) {
 				p.Del = i64(w.Now - int64(pick(r, 0, 30, 59, 60, 61, 90)))
+			}
+			if r.Chance(40, 100) {
+				p.Grace = i64(int64(pick(r, 0, 30, 600)))
 			}
 			for x := int64(1); x <= 2; x++ {
 				if r.Chance(35, 100) {
@@ -474,6 +519,14 @@ func (rn *runner) history(stream string, r *kit.Rand) {
 	}
 	var gsteps []string
 	cj := caseJSON{Stream: stream, W0: w0}
+	for _, p := range w.Pods {
+		if p.Grace != nil {
+			if cj.PodGrace == nil {
+				cj.PodGrace = map[string]int64{}
+			}
+			cj.PodGrace[podName(p.ID)] = *p.Grace
+		}
+	}
 	effective := false
 	for k := 0; k < n; k++ {
 		var o *opx
@@ -489,6 +542,15 @@ func (rn *runner) history(stream string, r *kit.Rand) {
 				o.g = "RClaim " + o.f.g()
 			case 1:
 				o = envOp(r, w, pick(r, "delclaim", "delclaim", "restart", "tick"))
+			}
+		} else if stream == "deadline" && k%2 == 0 && k < 6 {
+			o = &opx{kind: "reconcile-node", ctrl: "node", g: "RNode 0 None"}
+		} else if stream == "deadline" && k < 6 {
+			if r.Chance(40, 100) {
+				dt := int64(pick(r, 1, 4, 5))
+				o = &opx{g: "EnvTick " + gz(dt), kind: "tick", env: func(w *world) { w.Now += dt }}
+			} else if o = envOp(r, w, pick(r, "instgone", "instgone", "podterm", "vagone", "restart")); o == nil {
+				o = envOp(r, w, "instgone")
 			}
 		} else if stream == "volumes" && k%2 == 0 {
 			o = &opx{kind: "reconcile-node", ctrl: "node"}
@@ -623,6 +685,8 @@ func main() {
 			stream = "launch"
 		case 3:
 			stream = "volumes"
+		case 5:
+			stream = "deadline"
 		}
 		rn.history(stream, r)
 	}
